@@ -1568,8 +1568,27 @@ def oracle_C17(case):
     return None
 
 
+def _c17_nested_case_blocks():
+    """blocks nested in the branches of CASE statements (and CASE statements / expressions nested in such blocks): what an
+    END closes depends on which opener is innermost"""
+    a, z = 'select 1;', 'select 2;'
+    bodies = [
+        'case x when 1 then begin select 1; end; end case;',
+        'case x when 1 then select 1; when 2 then begin select 2; select 3; end; else begin v := 4; end; end case; select 4;',
+        'case when a = 1 then begin v := case when b = 2 then 3 else 4 end; end; end case;',
+        'case x when 1 then begin case y when 2 then begin select 5; end; end case; end; end case; return 6;',
+        'if a = 1 then case x when 1 then begin select 1; end; end case; end if;',
+        'begin case x when 1 then v := 1; end case; end; v := case when a = 1 then 2 else 3 end;',
+    ]
+    for b in bodies:
+        for hdr in ('create procedure p() begin ', 'CREATE OR REPLACE FUNCTION f() RETURNS int AS BEGIN '):
+            yield _c17_smoke_case(('case_stmt', 'block'), [a, hdr + b + (' end;' if hdr.islower() else ' END;'), z])
+
+
 def cases_C17(tier, seed):
     per = 400 if tier == 'quick' else 6000
+    for c in _c17_nested_case_blocks():
+        yield c
     for ci, (forms, declare) in enumerate(C17_CONFIGS):
         rnd = random.Random(seed * 59 + 19 + ci)
         for _ in range(per):
